@@ -29,6 +29,15 @@ Tornado documents "spurious failures" near the limit); `unsat_and_end_same_quant
 exceeded and the stream end delivered together: real_error may be either cause.  The program stops
 at the first failed read (what later reads on a closed stream do belongs to C13).
 
+Corrections: (1) a read that is provably unsatisfiable within max_bytes (no continuation of the buffered
+bytes can produce a delimiter ending within max_bytes - e.g. max_bytes < len(delimiter) or max_bytes bytes
+buffered without it; regex: >= max_bytes bytes buffered without a match) but has not yet seen MORE than
+max_bytes bytes may be still pending OR already closed with UnsatisfiableReadError (label
+`unsat_early_close_either`): the docstring's "closed if more than max_bytes bytes have been read" is an
+'if', not 'only if'.  The first version demanded "pending" there and flagged a property-preserving
+implementation that gives up one byte earlier (C11.read_failed_while_open).  Returning anything, or closing
+while a match within max_bytes is still possible, is still a violation.
+
 Sensitivity (quick tier, seed 1, scratch copies of tornado/iostream.py; every mutant caught in < 3 s):
   M1 _consume: ``del self._read_buffer[:loc]`` -> ``[: loc - 1]`` (a byte is duplicated)      -> C11.wrong_data
   M2 _find_read_pos: ``return loc + delimiter_len`` -> ``return loc``                          -> C11.wrong_data
@@ -58,7 +67,7 @@ import collections
 
 from hypothesis import strategies as st
 
-from tornado.iostream import StreamBufferFullError, StreamClosedError
+from tornado.iostream import StreamBufferFullError, StreamClosedError, UnsatisfiableReadError
 
 from vlib import iosmodel as M
 from vlib import vtime
@@ -315,7 +324,11 @@ async def scenario(ctx, case, labels):
                 labels.add("buffer_full_either")
             else:
                 exp = M.expect(rd.spec, rem, st_["ended"], rd.mb)
-                if exp[0] == "unsat":
+                e = rd.raised if rd.raised is not None else rd.fut.exception()
+                closed_unsat = isinstance(getattr(e, "real_error", None), UnsatisfiableReadError)
+                if exp[0] == "unsat" or (M.may_be_unsat(exp) and closed_unsat):
+                    if exp[0] != "unsat":
+                        labels.add("unsat_early_close_either")
                     labels.add("unsat_close")
                     account_mb(rd)
                     if st_["ended"]:
